@@ -300,6 +300,25 @@ def spec(tier, seed):
             L[2] = "def %s(%s) -> bool:" % (fn, ", ".join(params))
             L[-1] = "    return def_side(P_%s, X_%s, [%s], pos, kw)" % (fn, fn, ", ".join("dflt%d" % i for i in range(nd)))
             obs.append(Ob(fn, "\n".join(L), sample="def side (defn): %s  ==  %s" % (hytext2, pytext), group="defn/%d" % len(sp[0]), weight=len(sp[0]) + 1))
+    # literal defaults of every kind, falsy ones included, on positional-only, normal and keyword-only parameters
+    # (after a bare * and after #* rest)
+    LITS = [("0", "0"), ("0.0", "0.0"), ('""', '""'), ("#()", "()"), ("[]", "[]"), ("{}", "{}"), ('b""', 'b""'), ("None", "None"), ("False", "False"), ("7", "7"), ('"x"', '"x"')]
+    for hl, pl in (LITS if tier == "thorough" else LITS[:9]):
+        for hy_ll, py_ll, names in (
+                ("[a / [b %s] * [k %s] r]" % (hl, hl), "a, /, b=%s, *, k=%s, r" % (pl, pl), ["a", "b", "k", "r"]),
+                ("[[a %s] #* rest [flag %s] #** kws]" % (hl, hl), "a=%s, *rest, flag=%s, **kws" % (pl, pl), ["a", "rest", "flag", "kws"])):
+            hytext = "(fn %s #(%s))" % (hy_ll, " ".join(names))
+            pytext = "lambda %s: (%s)" % (py_ll, "".join(nm + ", " for nm in names))
+            fn = "h%d" % n
+            n += 1
+            pool = [x for x in names if x not in ("rest", "kws")] + ["zz"]
+            L = ["P_%s = _sk.compile_prog(%r)" % (fn, hytext), "X_%s = compile(%r, '<pydef>', 'eval')" % (fn, pytext),
+                 "def %s(pos: List[int], kw: Dict[str, int]) -> bool:" % fn, '    """',
+                 "    pre: len(pos) <= 3",
+                 "    pre: len(kw) <= 2 and all(k in %r for k in kw)" % (tuple(pool),),
+                 "    post: _", '    """',
+                 "    return def_side(P_%s, X_%s, [], pos, kw)" % (fn, fn)]
+            obs.append(Ob(fn, "\n".join(L), sample="def side (literal defaults): %s  ==  %s" % (hytext, pytext), group="def-literal-default", weight=3))
     for ci, ks in enumerate(call_shapes(maxa)):
         if tier == "quick" and len(ks) == maxa and ci % 4:
             continue
@@ -363,7 +382,7 @@ def spec(tier, seed):
             "hy.compiler.HyASTCompiler._compile_collect (keyword arguments mingled among positionals, #*, #**), compile_expression",
         ],
         "bounds": "(quick tier: every 5th of the largest lambda lists and every 4th of the longest call shapes; thorough: all) def side: all lambda lists with <= %d parameters over {positional-only, normal, keyword-only} x {default, none} with /, #* rest, bare *, #** kws "
-                  "(defaults symbolic ints), each called with a symbolic positional list (len <= params+1) and a symbolic keyword dict (<= 2 keys in quick, <= 3 in thorough, from the parameter names "
+                  "(defaults symbolic ints; plus two lambda lists with literal defaults of 9-11 kinds, falsy ones included, on every parameter kind), each called with a symbolic positional list (len <= params+1) and a symbolic keyword dict (<= 2 keys in quick, <= 3 in thorough, from the parameter names "
                   "plus an outsider); fn and (sampled) defn. call side: all call shapes with <= %d arguments over {positional, :k1, :k2, #* list(len<=2), #** dict(keys in k1..k3)} "
                   "in every order, values symbolic. body side: 11 body shapes for the implicit-return and docstring rules." % (maxp, maxa),
         "outside": "more than %d parameters / %d arguments (property text: 6); annotations, decorators, type parameters; async generators' return rule (not runnable here)" % (maxp, maxa),
